@@ -5,6 +5,7 @@ package main
 import (
 	"context"
 	"encoding/hex"
+	"strconv"
 	"strings"
 
 	"github.com/jig/lisp"
@@ -36,6 +37,53 @@ func (e *printEngine) generate(r *rng, n int, tier string, emit func(string)) {
 }
 
 func (e *printEngine) run(payload string) string { o, _ := e.runX(payload); return o }
+
+// engine "printdeep" (C06): values nested far deeper than anything a person writes (200 … 3000 levels of lists, vectors
+// and maps) print and read back like any other.  Harness-side oracle only: the line protocol does not carry such terms.
+type printDeepEngine struct{}
+
+func init() { register("printdeep", &printDeepEngine{}) }
+
+func (e *printDeepEngine) leanName() string { return "nomodel" }
+
+func (e *printDeepEngine) generate(r *rng, n int, tier string, emit func(string)) {
+	for _, d := range []int{200, 999, 1000, 1001, 1500, 3000} {
+		emit("depth=" + strconv.Itoa(d))
+	}
+}
+
+func (e *printDeepEngine) run(payload string) string {
+	d, err := strconv.Atoi(strings.TrimPrefix(payload, "depth="))
+	if err != nil || d < 1 || d > 100000 {
+		return "bad-case"
+	}
+	var v MalType = kw("leaf")
+	for i := 0; i < d; i++ {
+		switch i % 3 {
+		case 0:
+			v = List{Val: []MalType{v}}
+		case 1:
+			v = Vector{Val: []MalType{sy("a"), v}}
+		default:
+			v = HashMap{Val: map[string]MalType{"k": v}}
+		}
+	}
+	text := lisp.PRINT(v)
+	if o := roundTripText(v, text); o != "rt=ok" {
+		return o + "\t!a value nested " + strconv.Itoa(d) + " levels deep does not read back from its printed form (" + o + ")"
+	}
+	// second clause: the text READ accepts prints and re-reads to an equal value
+	v2, rerr := lisp.READ(text, nil, nil)
+	if rerr != nil {
+		return "rt=err"
+	}
+	if o := roundTripText(v2, lisp.PRINT(v2)); o != "rt=ok" {
+		return o + "\t!a text nested " + strconv.Itoa(d) + " levels deep does not survive print-then-read (" + o + ")"
+	}
+	return "rt=ok"
+}
+
+func (e *printDeepEngine) classify(payload, obs string) string { return strings.SplitN(obs, "\t", 2)[0] }
 
 func (e *printEngine) runX(payload string) (string, string) {
 	v, err := parse(payload)
